@@ -70,11 +70,18 @@ def jobs(tier):
         A(lambda Bb=Bb, H=H, f=f, sw=sw, dv=dv, hv=hv, tag=tag:
           L.pkdpk_inst("Packetizer>Depacketizer/" + tag, Bb, H, f, sw, dv[:2] if Bb == 1 else [dv[1], dv[2]], hv[:2]))
     # ---- PacketFIFO ---------------------------------------------------------------------------------------
-    T4 = [(0, 0, 0), (1, 1, 0), (0, 1, 1), (1, 0, 1)]      # (data, param, last)
-    for pd in (2, 3) if quick else (2, 3, 4, 5):
-        A(lambda pd=pd: L.packetfifo_inst("PacketFIFO(%d)" % pd, pd, tokens=T4))
-    A(lambda: L.packetfifo_inst("PacketFIFO(4,param_depth=1)", 4, 1, tokens=T4))
-    A(lambda: L.packetfifo_inst("PacketFIFO(2)/alltokens", 2))
+    # tokens (data, param, last).  T4 distinguishes data, param and last; T2 exercises the occupancy logic only
+    # (every stored word of a deeper FIFO multiplies the implementation states by the number of token values)
+    T4 = [(0, 0, 0), (1, 1, 0), (0, 1, 1), (1, 0, 1)]
+    T2 = [(0, 0, 0), (1, 1, 1)]
+    A(lambda: L.packetfifo_inst("PacketFIFO(2)", 2, tokens=T4))
+    A(lambda: L.packetfifo_inst("PacketFIFO(3)/T2", 3, tokens=T2))
+    A(lambda: L.packetfifo_inst("PacketFIFO(4,param_depth=1)/T2", 4, 1, tokens=T2))
+    if not quick:
+        A(lambda: L.packetfifo_inst("PacketFIFO(2)/alltokens", 2))
+        A(lambda: L.packetfifo_inst("PacketFIFO(3)", 3, tokens=T4))
+        A(lambda: L.packetfifo_inst("PacketFIFO(4)/T2", 4, tokens=T2))
+        A(lambda: L.packetfifo_inst("PacketFIFO(3,param_depth=1)", 3, 1, tokens=T4))
     # ---- Arbiter / Dispatcher -----------------------------------------------------------------------------
     A(lambda: L.arbiter_inst("Arbiter(2)", 2))
     A(lambda: L.arbiter_inst("Arbiter(3)", 3))
